@@ -21,7 +21,7 @@ def value_record(ty, v):
 def build_items(tier, seed):
     from oal_render import render
     rnd = random.Random(seed)
-    n = 12 if tier == 'quick' else 200
+    n = 32 if tier == 'quick' else 300
     envs = [callgen.environment(random.Random(rnd.randint(0, 10 ** 9))) for _ in range(n)]
     # every body of every environment goes through the specification's unparser in one batch
     bodies, index = [], []
@@ -113,7 +113,7 @@ def check(tier, replay_path=None):
            'evaluations': ncalls, 'distinct_nontrivial': len(distinct),
            'rule': 'one evaluation = one invocation result. For each generated environment (recursive and mutually recursive functions, '
                    'functions with several by-name parameters, callees that assign their callers\' variable names, functions with '
-                   'bare / missing returns and returns through nested control flow, class and instance operations, a bridge, a derived '
+                   'bare / missing returns and returns through nested control flow, a random call graph g0..gn with calls in expressions, arguments, loop conditions and elif chains and locals named like parameters and like the callers\' variables, class and instance operations, bridges, a derived '
                    'attribute, an enumeration, constants) a BridgePoint model is synthesised (rows shuffled for every second one, '
                    'keyword case varied), built with mk_component, and the elements are invoked from OAL bodies (scripts: in '
                    'expressions, where clauses, loop conditions, for-each bodies) and from Python through find_symbol / class members; '
@@ -122,7 +122,7 @@ def check(tier, replay_path=None):
            'environments_outside_domain': st.get('notes', {}).get('OOD', 0),
            'model': 'OalExec.tla Call / Args / Derived / enumerators / constants; OalCallTrace.tla', 'exhaustive': False}
     evidence.write(PID, tier, 'model_checking', cov, t.s(), rep.n, [
-        'parameters are integers (0..9), strings and booleans; bodies come from fixed templates with seeded constants and structure',
+        'parameters are integers (0..9), strings and booleans; every environment holds the fixed templates (seeded constants) and a random call graph of 3-5 functions (callgen.random_funcs: any function may call any other, the depth parameter bounds the recursion)',
         'a function that returns nothing is only invoked as a statement from OAL',
     ])
     return rc
